@@ -772,9 +772,83 @@ TRUSTED_NOTE = ('C17: tolower()/isdigit() are modelled as the ASCII-only "C"-loc
                 'sockets, tun, zlib and login_calculate replaced, see C14)')
 
 
+MAIN_WRAPS = ['open_tun', 'exit', 'errx', 'err', 'check_superuser', 'get_addr', 'read_password', 'time']
+CLIMAIN = dict(harness=['hmain.c', 'h_c17cli.c'], repo=vlib.COMMON_SRCS + ['util.c', 'client.c'], wraps=MAIN_WRAPS)
+SRVMAIN = dict(harness=['hmain.c', 'h_c17srv.c'], repo=vlib.COMMON_SRCS + ['user.c', 'fw_query.c'], wraps=MAIN_WRAPS)
+
+
+def aline(args):
+    return 'A ' + ' '.join(hexs(a) for a in args)
+
+
+def startup_stage(rep, ctx, cases):
+    """the call sites of check_topdomain(): the real main() of iodine.c and of iodined.c on a scripted command line
+    (harness/h_mainargs.inc) accept a tunnel domain exactly when the property text does -- the client without, the
+    server with the wildcard label -- and exactly when the model's check_topdomain does with that flag"""
+    if 'climain' not in ctx.exe or 'srvmain' not in ctx.exe:
+        return
+    doms = []
+    seen = set()
+    vl = [c for c in cases if c.startswith('V ')]
+    lim = 6000 if rep.tier == 'quick' else 60000
+    # the boundary / character-class / random lines sit at the end of the V block; a slice of the exhaustive block first
+    for c in vl[:40] + vl[-(lim // 20):]:
+        for h in c.split(' ')[2].split(','):
+            d = unhex_item(h)
+            if d not in seen and b'\0' not in d and len(d) < 900:
+                seen.add(d)
+                doms.append(d)
+    doms = doms[:lim]
+    for d in (b'*.a.b', b'*.foo.com', b'*.t.example.com', b'a.b', b'*.' + b'x' * 63 + b'.y', b'*'):
+        if d not in seen:
+            doms.append(d)
+    cli = [aline([b'-f', b'-P', b'pw', b'--', b'127.0.0.1', d]) for d in doms]
+    srv = [aline([b'-f', b'-P', b'pw', b'--', b'10.0.0.1/27', d]) for d in doms]
+    cov = dict(domains=len(doms))
+    rc1, oc, e1 = vlib.parallel_run_cases(ctx.exe['climain'], cli, ctx.work, 'climain')
+    rc2, osv, e2 = vlib.parallel_run_cases(ctx.exe['srvmain'], srv, ctx.work, 'srvmain')
+    if rc1 != 0 or rc2 != 0:
+        ctx.broken.append(('impl-crash', 'main() harness exited with %d / %d: %s' % (rc1, rc2, (e1 + e2)[-300:])))
+    mod = {}
+    if ctx.model:
+        for w in (0, 1):
+            lines = [vline(w, b) for b in batched(doms, 64)]
+            rc, mo, err = vlib.parallel_run_cases(ctx.model, lines, ctx.work, 'model-main%d' % w)
+            flat = ''.join(mo)
+            if len(flat) == len(doms):
+                mod[w] = flat
+            else:
+                ctx.broken.append(('correspondence', 'model gave %d verdicts for %d domains (startup stage)' % (len(flat), len(doms))))
+    acc = [0, 0]
+    for w, outs, which, lines in ((0, oc, 'iodine', cli), (1, osv, 'iodined', srv)):
+        for i, (d, o) in enumerate(zip(doms, outs)):
+            got = o.startswith('ACCEPT')
+            exp = ref_valid(d, bool(w))
+            acc[w] += got
+            if got != exp:
+                key = 'startup:%s-%s' % (which, 'accepts-invalid' if got else 'rejects-valid')
+                rep.add_violation(key, 'the real main() of %s %s the tunnel domain %r; the property text (%s) %s it' % (
+                    which, 'accepts' if got else 'rejects', d, 'server: a leading wildcard label is allowed' if w else
+                    'client: no wildcard', 'rejects' if got else 'accepts'),
+                    dict(kind='input', driver=which + '-main', case=lines[i], observed=o, expected='ACCEPT' if exp else 'REJECT'))
+                break
+            if w in mod and (mod[w][i] == '0') != got:
+                ctx.broken.append(('correspondence', 'startup stage: main() of %s %s %r, the model check_topdomain(.., %d) says %s' % (
+                    which, 'accepts' if got else 'rejects', d, w, mod[w][i])))
+                break
+    cov['client_accepted'], cov['server_accepted'] = acc
+    cov['wildcard_domains'] = sum(1 for d in doms if d.startswith(b'*'))
+    rep.cov['startup'] = cov
+    rep.cov['evaluations'] = rep.cov.get('evaluations', 0) + 2 * len(doms)
+    rep.cov['rule'] += ('. Startup stage: %d tunnel domains as the last command-line argument of the real main() of iodine.c and of '
+                        'iodined.c (harness/h_mainargs.inc, run up to open_tun): accepted iff the property text accepts it without / '
+                        'with the wildcard label, and iff the model check_topdomain does' % len(doms))
+
+
 def prepare_both(rep, sanitize, prove_it=True):
     """pure harness + C17 model (check_topdomain / query_datalen), server-history harness + SRV model (dispatch)"""
-    ctx = vlib.prepare(rep, harnesses={'pure': vlib.pure_harness('C17'), 'srv': srvlib.SRV}, sanitize=sanitize, prove_it=prove_it)
+    ctx = vlib.prepare(rep, harnesses={'pure': vlib.pure_harness('C17'), 'srv': srvlib.SRV, 'climain': CLIMAIN, 'srvmain': SRVMAIN},
+                       sanitize=sanitize, prove_it=prove_it)
     srv_model = None
     if ctx.consts is not None:
         mok, exe, lg = vlib.build_model_driver('SRV')
@@ -842,6 +916,7 @@ def check(rep):
                         'oracle from ref_match: inside => never forwarded, NS / ns. / www. / case-check answered; outside => never '
                         'answered, forwarded iff a port is configured; then model == implementation per event' % len(DISPATCH_DOMAINS))
     dispatch_stage(rep, ctx, srv_model)
+    startup_stage(rep, ctx, cases)
     if not rep.violations:
         ctx.report_broken()
     return rep
